@@ -288,8 +288,12 @@ def finish(prop, tier, seed, level, summaries, violations, t0, assumptions, inco
     }
     if inconclusive:
         ev["coverage"]["inconclusive_reason"] = inconclusive
-    os.makedirs(os.path.join(VERIF, "evidence"), exist_ok=True)
-    evp = os.path.join(VERIF, "evidence", prop + ".json")
+    outroot = VERIF
+    if repo_path() != "/repo":
+        # runs against a scratch worktree (mutation validation) never touch the committed evidence
+        outroot = os.path.join(BUILD, "alt-" + hashlib.sha1(repo_path().encode()).hexdigest()[:10])
+    os.makedirs(os.path.join(outroot, "evidence"), exist_ok=True)
+    evp = os.path.join(outroot, "evidence", prop + ".json")
     tmp = evp + ".tmp"
     json.dump(ev, open(tmp, "w"), indent=1, sort_keys=False, default=str)
     os.replace(tmp, evp)
@@ -298,13 +302,13 @@ def finish(prop, tier, seed, level, summaries, violations, t0, assumptions, inco
         print("KNOWN-FINDING: property=%s %s (%s)" % (prop, known_sigs[sig].get("what", v["what"]), sig))
     rc = 0
     seen_sig = set()
-    os.makedirs(os.path.join(VERIF, "replay"), exist_ok=True)
+    os.makedirs(os.path.join(outroot, "replay"), exist_ok=True)
     for v in unlisted:
         if v["sig"] in seen_sig:
             continue
         seen_sig.add(v["sig"])
         h = hashlib.sha1(json.dumps(v, sort_keys=True, default=str).encode()).hexdigest()[:10]
-        rp = os.path.join(VERIF, "replay", "%s-%s.json" % (prop, h))
+        rp = os.path.join(outroot, "replay", "%s-%s.json" % (prop, h))
         json.dump({"prop": prop, "sig": v["sig"], "what": v["what"], "case": v.get("case"),
                    "tier": tier, "seed": int(seed)}, open(rp, "w"), indent=1, default=str)
         print("VIOLATION property=%s replay=%s" % (prop, rp))
